@@ -1252,7 +1252,7 @@ class AttrParser(BaseParser):
             self.raise_error(
                 "Complex value must be either (float, float) or (int, int)"
             )
-        token = self._consume_token(MLIRTokenKind.R_PAREN)
+        token = self._parse_token(MLIRTokenKind.R_PAREN, "')' expected")
         end = token.span.end
         value = (real, imag)
         span = Span(start, end, input)
